@@ -45,7 +45,7 @@ fn contention_shapes() -> Vec<Case> {
         vec![COp::Add(d(7, 1)), COp::Add(d(7, 2)), up(0, 7)],  // three contenders
         vec![up(0, 5), COp::Add(d(0, 3)), COp::Flush],
     ];
-    sets.into_iter().map(|ops| Case { pre: pre.clone(), ops, schedule: vec![] }).collect()
+    sets.into_iter().map(|ops| Case { pre: pre.clone(), ops, schedule: vec![], cold: false }).collect()
 }
 
 fn unique_ok(docs: &Model) -> Result<(), String> {
@@ -166,7 +166,7 @@ pub fn check_fault(case: &Case, ch: &mut Chooser, fail: u64, ctx: &mut CaseCtx) 
     // live handle: C02 observation already ran inside execute; uniqueness on the final documents
     unique_ok(&out.fin.docs).map_err(|e| format!("release {fail} failed (returns {:?}): {e}", out.rets))?;
     // no trace of writes that returned Err: final state explained by the ops that returned Ok only
-    let ok_case = Case { pre: case.pre.clone(), ops: case.ops.clone(), schedule: vec![] };
+    let ok_case = Case { pre: case.pre.clone(), ops: case.ops.clone(), schedule: vec![], cold: case.cold };
     let mut out2 = RunOut { rets: out.rets.clone(), span: out.span.clone(), fin: out.fin.clone(), flush_snaps: vec![], steps: out.steps, interleaved: out.interleaved, crash_snap: None, acked: out.acked.clone(), started: out.started.clone(), poisoned: false };
     // an op that failed with the injected error must have left no trace: treat it as absent by
     // demanding that the final state is reachable by the other ops; contenders may legitimately have
